@@ -7,7 +7,7 @@
 # A convenience for first verdicts while /repo and /verif are being worked on; verdicts that are recorded as final come from
 # tools/recheck_seeded.sh (apply to /repo itself, ./check, undo).
 set -u
-S=/tmp/shadow
+S=${SHADOW:-/tmp/shadow}
 case "$1" in
 sync)
   mkdir -p $S
